@@ -254,11 +254,13 @@ Clear ==
 GenKeys == {Key(c, i) : c \in 1..Min(Len(chunks), UsedChunks), i \in KeyIdx}
 SmallSubsets(S, n) == {K \in SUBSET S : K # {} /\ Cardinality(K) <= n}
 
-Next ==
-    \/ \E k \in GenKeys, z \in Sizes : Add(k, z)
-    \/ \E K \in SmallSubsets(GenKeys, ImmunizeMax) : Immunize(K)
-    \/ \E k \in GenKeys : Remove(k) \/ Get(k)
-    \/ Clear
+\* named so that TLC's coverage report lists them separately (vacuity guard)
+NAdd      == \E k \in GenKeys, z \in Sizes : Add(k, z)
+NImmunize == \E K \in SmallSubsets(GenKeys, ImmunizeMax) : Immunize(K)
+NRemove   == \E k \in GenKeys : Remove(k)
+NGet      == \E k \in GenKeys : Get(k)
+NClear    == Clear
+Next == NAdd \/ NImmunize \/ NRemove \/ NGet \/ NClear
 
 Spec == Init /\ [][Next]_vars
 
